@@ -58,13 +58,13 @@ def cases(tier, seed):
             if mult:
                 b0["multipleOf"] = mult
             out.append(_mk("bounds", b0, fmt=fmt, nb=0))
-            keysets = [("minimum",), ("maximum",)] if tier == "quick" else [(k,) for k in BOUND_KEYS]
+            keysets = [(k,) for k in BOUND_KEYS]
             for (k,) in keysets:
                 for v in lat:
                     s = dict(b0)
                     s[k] = v
                     out.append(_mk("bounds", s, fmt=fmt, nb=1))
-            pairs = [("minimum", "maximum")] if tier == "quick" else list(itertools.combinations(BOUND_KEYS, 2))
+            pairs = list(itertools.combinations(BOUND_KEYS, 2))
             for (k1, k2) in pairs:
                 for v1 in lat:
                     for v2 in lat:
@@ -263,7 +263,7 @@ def execute(cases_, tier, seed):
     res.extra["chosen_type_histogram"] = chosen_hist
     res.extra["lattice_size"] = len(lat)
     res.samples = [c["schema"] for c in cases_[:: max(1, len(cases_) // 5)]][:5]
-    res.bound = ("tier=%s: formats=%d x bounds (quick: minimum,maximum; thorough: <=2 of 4 bound keywords) over lattice x multipleOf; "
+    res.bound = ("tier=%s: formats=%d x <=2 of the 4 bound keywords over the lattice (quick: 33-value lattice, no multipleOf; thorough: 46-value lattice x multipleOf{absent,2}); "
                  "default table; string/float format tables; every case probed with all %d lattice integers" % (tier, len(FORMATS), len(lat)))
     res.assumptions = ["schemars parses numeric keywords as f64; the oracle judges the echoed (parsed) numbers",
                        "on a side with neither bound nor recognised format probes are clipped to the i64 range (statement's fallback)"]
